@@ -236,6 +236,8 @@ func init() {
 	reg("runtime.Stack", func(fr *frame, args []value) value { return 0 })
 	reg("runtime.Callers", func(fr *frame, args []value) value { return 0 })
 	reg("runtime/debug.Stack", func(fr *frame, args []value) value { return []value(nil) })
+	reg("(runtime.errorString).Error", func(fr *frame, args []value) value { return "runtime error: " + str(args[0]) })
+	reg("(runtime.errorString).RuntimeError", func(fr *frame, args []value) value { return nil })
 	reg("runtime.KeepAlive", func(fr *frame, args []value) value { return nil })
 	reg("github.com/efficientgo/core/errors.newStackTrace", func(fr *frame, args []value) value { return []value(nil) })
 
@@ -475,15 +477,32 @@ func init() {
 	})
 	xd := func(v value) *xxhash.Digest { return (*ptr(v)).(structure)[0].(*xxhash.Digest) }
 	reg("(*github.com/cespare/xxhash/v2.Digest).Write", func(fr *frame, args []value) value {
+		if fr.i.isolate {
+			fr.i.noteWrite(fr, ptr(args[0]), nil)
+		}
 		n, _ := xd(args[0]).Write(bytesOf(args[1]))
 		return tuple{n, iface{}}
 	})
 	reg("(*github.com/cespare/xxhash/v2.Digest).WriteString", func(fr *frame, args []value) value {
+		if fr.i.isolate {
+			fr.i.noteWrite(fr, ptr(args[0]), nil)
+		}
 		n, _ := xd(args[0]).WriteString(str(args[1]))
 		return tuple{n, iface{}}
 	})
-	reg("(*github.com/cespare/xxhash/v2.Digest).Sum64", func(fr *frame, args []value) value { return xd(args[0]).Sum64() })
-	reg("(*github.com/cespare/xxhash/v2.Digest).Reset", func(fr *frame, args []value) value { xd(args[0]).Reset(); return nil })
+	reg("(*github.com/cespare/xxhash/v2.Digest).Sum64", func(fr *frame, args []value) value {
+		if fr.i.isolate {
+			fr.i.noteRead(fr, ptr(args[0]), nil)
+		}
+		return xd(args[0]).Sum64()
+	})
+	reg("(*github.com/cespare/xxhash/v2.Digest).Reset", func(fr *frame, args []value) value {
+		if fr.i.isolate {
+			fr.i.noteWrite(fr, ptr(args[0]), nil)
+		}
+		xd(args[0]).Reset()
+		return nil
+	})
 
 	// ---- strings.Builder (uses unsafe): buf lives in field 1 as a []value of bytes
 	sbBuf := func(v value) *value { return &(*ptr(v)).(structure)[1] }
